@@ -40,7 +40,7 @@ var pureFrameFuncs = map[string]bool{
 	"io/ioutil.ReadFile": true, "io/ioutil.WriteFile": true, "io/ioutil.ReadDir": true,
 	"encoding/json.Marshal": true, "encoding/json.MarshalIndent": true,
 	"(*sync/atomic.Int64).Load": true, "(*sync/atomic.Uint64).Load": true, "(*sync/atomic.Bool).Load": true, "(*sync/atomic.Int32).Load": true,
-	"sync/atomic.LoadInt64": true, "sync/atomic.LoadUint64": true, "sync/atomic.LoadInt32": true, "sync/atomic.LoadUint32": true,
+	
 }
 
 var nonNilResult = map[string]bool{"errors.New": true, "fmt.Errorf": true}
@@ -178,6 +178,49 @@ func init() {
 			intrinsics[fmt.Sprintf("(encoding/binary.%s).PutUint%d", e, w)] = func(t *FnTrans, x *ssa.Call, a []Val, st *HeapState, reach string) (Val, bool) {
 				return t.endianWrite(x, a[1], a[2], w, e == "littleEndian", st, reach)
 			}
+		}
+	}
+}
+
+// sync/atomic loads and stores of integers: the sequential meaning (*addr,
+// *addr = val).  Concurrency is outside this engine for every function; an
+// atomic access is the same memory access as a plain one for a single thread.
+func init() {
+	for _, k := range []string{"Int32", "Int64", "Uint32", "Uint64"} {
+		k := k
+		intrinsics["sync/atomic.Load"+k] = func(t *FnTrans, x *ssa.Call, a []Val, st *HeapState, reach string) (Val, bool) {
+			addr := x.Common().Args[0]
+			l, ok := t.locOf(a[0], addr.Type())
+			if !ok {
+				return Val{}, false
+			}
+			if a[0].K == VScalar && !interiorOrLocal(addr) {
+				t.nilCheck(x.Pos(), reach, a[0].S)
+			}
+			return t.load(st, l, reach), true
+		}
+		intrinsics["sync/atomic.Store"+k] = func(t *FnTrans, x *ssa.Call, a []Val, st *HeapState, reach string) (Val, bool) {
+			addr := x.Common().Args[0]
+			l, ok := t.locOf(a[0], addr.Type())
+			if !ok {
+				return Val{}, false
+			}
+			if !rootIsLocal(addr) {
+				t.frameCheck("store:"+t.srcText(x.Pos()), x.Pos(), reach)
+				if t.allowedMods != nil {
+					for _, c := range t.addrComps(addr) {
+						if !t.allowedMods[c] {
+							t.addObl("frame", "store-outside-modifies:"+c, reach, Formula{Raw: "false"}, x.Pos(), "store to a heap component that is not in the modifies list")
+						}
+					}
+				}
+			}
+			if a[0].K == VScalar && !interiorOrLocal(addr) {
+				t.nilCheck(x.Pos(), reach, a[0].S)
+			}
+			pt := addr.Type().Underlying().(*types.Pointer)
+			t.store(st, l, t.materialize(a[1], pt.Elem()))
+			return Val{K: VNone}, true
 		}
 	}
 }
